@@ -66,6 +66,8 @@ class Run:
             return ev.ev(ks[0])          # copy of a pair / rtosc_arg_t
         if k == "CXXConstructExpr" and not ks:
             return ("default",)          # `rtosc_arg_t args[3];`
+        if k in ("CXXConstructExpr", "CXXTemporaryObjectExpr", "CXXFunctionalCastExpr") and len(ks) == 2 and "pair" in (A.qtype(n) or ""):
+            return ("pair", ev.ev(ks[0]), ev.ev(ks[1]))      # Event(time, message)
         if k == "CXXDeleteExpr":
             return 0
         if k == "CallExpr":
@@ -79,6 +81,12 @@ class Run:
                 return self._elem(0 if nm == "front" else self.pos - 1, n)
             if nm == "at" and len(ks) == 2:
                 return self._elem(ev.ev(ks[1]), n)
+            # a method of the same class, called on this object: evaluated in place
+            base_ = A.strip_casts(A.kids(cal)[0]) if A.kids(cal) else None
+            if base_ is None or base_.get("kind") == "CXXThisExpr":
+                cands = [f for q, fl in self.u.functions.items() if q.split("::")[-1] == nm for f in fl if self.u.body(f) is not None]
+                if len(cands) == 1:
+                    return ev.call_function(self.u, cands[0], [ev.ev(a) for a in ks[1:]])
             raise FD.Unknown("member call %s" % nm, n)
         if k == "CXXOperatorCallExpr":
             op = A.src(ks[0]) if ks else ""
@@ -176,8 +184,19 @@ class Run:
                 return v
             raise FD.Unknown("store to element of %r" % (b,), n)
         if l.get("kind") == "DeclRefExpr":
+            cur = ev.env.get(l["referencedDecl"]["id"])
+            if isinstance(cur, tuple) and cur[0] == "elem" and isinstance(v, tuple) and v[0] == "pair":
+                self.stores[("first", cur[1])] = v[1]          # a whole entry assigned through a reference to it
+                self.stores[("second", cur[1])] = v[2]
+                return v
             ev.env[l["referencedDecl"]["id"]] = v
             return v
+        if l.get("kind") == "CXXOperatorCallExpr":
+            tgt = ev.ev(l)
+            if isinstance(tgt, tuple) and tgt[0] == "elem" and isinstance(v, tuple) and v[0] == "pair":
+                self.stores[("first", tgt[1])] = v[1]
+                self.stores[("second", tgt[1])] = v[2]
+                return v
         raise FD.Unknown("assignment to %s" % l.get("kind"), n)
 
     def _call(self, n, ev):
@@ -185,6 +204,8 @@ class Run:
         args = A.kids(n)[1:]
         if name in ("memset", "printf", "fprintf", "assert", "__assert_fail", "memcpy"):
             return 0
+        if name == "make_pair" and len(args) == 2:
+            return ("pair", ev.ev(args[0]), ev.ev(args[1]))
         if name == "rtosc_argument":
             m, k_ = ev.ev(args[0]), ev.ev(args[1])
             if isinstance(m, tuple) and m[0] == "msg" and isinstance(k_, int):
@@ -227,8 +248,22 @@ class Run:
         raise FD.Unknown("call %s" % name, n)
 
     # ------------------------------------------------------------------ entry
+    def stmt_hook(self, n, ev):
+        """`const rtosc_arg_t args[3] = { a, b, c };` - the elements go to the array model"""
+        if n.get("kind") != "DeclStmt":
+            return None
+        done = False
+        for d in A.kids(n):
+            if d.get("kind") == "VarDecl" and "[" in (A.qtype(d) or "") and A.kids(d) and A.strip_casts(A.kids(d)[-1]).get("kind") == "InitListExpr":
+                for i, e in enumerate(A.kids(A.strip_casts(A.kids(d)[-1]))):
+                    self.arrays[(d["id"], i)] = ev.ev(e)
+                done = True
+            elif done:
+                raise FD.Unknown("mixed declaration statement", n)
+        return True if done else None
+
     def run(self, fn, env, max_steps=6000):
-        ev = FD.Eval(env=env, node_hook=self.hook, max_steps=max_steps)
+        ev = FD.Eval(env=env, node_hook=self.hook, stmt_hook=self.stmt_hook, max_steps=max_steps)
         self.ev = ev
         try:
             ev.run(self.u.body(fn))
